@@ -257,6 +257,16 @@ theorem msgHeader_eq (typ : Int) :
   unfold Wire.msgHeader Facts.msgVersion1 Facts.msgTypeMask
   rw [hA]
 
+/-- Go's `|`, `&`, `^` commute: a refactoring that swaps the operands changes the generated term, not its value -/
+theorem bor_comm (t : IT) (a b : Int) : bor t a b = bor t b a := by unfold bor; rw [Nat.or_comm]
+theorem band_comm (t : IT) (a b : Int) : band t a b = band t b a := by unfold band; rw [Nat.and_comm]
+theorem bxor_comm (t : IT) (a b : Int) : bxor t a b = bxor t b a := by unfold bxor; rw [Nat.xor_comm]
+
+/-- `msgHeader_eq` with the operands of `|` swapped -/
+theorem msgHeader_eq' (typ : Int) :
+    ofInt 32 (bor .u32 (wrap .u32 (band .i32 typ 65535)) 2147549184) = Wire.msgHeader typ := by
+  rw [bor_comm]; exact msgHeader_eq typ
+
 theorem liftW_ok (b : Bytes) (n : Int) : liftW (.ok (b, n)) = .ok (b, n.toNat) := rfl
 theorem liftW_panic (s : String) : liftW (.panic s) = .panic s := rfl
 
@@ -302,7 +312,7 @@ macro "wsimp" : tactic => `(tactic| (
     Nat.add_zero, Nat.add_assoc, Nat.reduceAdd,
     if_pos, if_neg, Bool.false_eq_true, Bool.not_true, Bool.not_false, eq_self, if_true, if_false, T_STOP_eq, be64_ofInt_nat, Out.bind_ok, Out.bind_panic, Out.pure_eq, Out.bind_eq, liftW_ok, liftW_panic,
     wrap_wrap, ofInt_wrap, byteOf_wrap_u8, ofNat_toI8, byteOf_zero, byteOf_one,
-    ofInt_wrap_u16, ofInt_wrap_u32, ofInt_wrap_u64, be32_ofInt_nat, msgHeader_eq, len]
+    ofInt_wrap_u16, ofInt_wrap_u32, ofInt_wrap_u64, be32_ofInt_nat, msgHeader_eq, msgHeader_eq', len]
   <;> congr_omega))
 
 theorem Binary_WriteFieldStop_eq (buf : Bytes) (off : Nat) (h : off ≤ buf.length) :
